@@ -498,3 +498,9 @@ func (s *Stream) Drain() []byte {
 	s.in.buf = nil
 	return out
 }
+
+// NewDetachedConn returns a connection that is not listed by any network
+// (streams on it are invisible to Network().Conns()).
+func (n *Network) NewDetachedConn(local, remote peer.ID) *Conn {
+	return &Conn{local: local, remote: remote}
+}
